@@ -824,7 +824,9 @@ class AnsiString:
             format_match = re.match(r'(^(?:.?[-\+]?[<>\^])?[0-9]*)(:.*)?\Z', format_spec, re.DOTALL)
 
             if not format_match:
-                format_parts = [format_spec]
+                # Not a valid string format: hand its part in front of the first colon to the string formatter so that
+                # it reports what is wrong with it (ex: "+10:red" - sign not allowed)
+                format_parts = [format_spec.split(':', 1)[0] or format_spec]
             elif format_match.group(2):
                 # Remove the colon from the beginning of group 2
                 format_parts = [format_match.group(1), format_match.group(2)[1:]]
